@@ -119,6 +119,21 @@ Theorem C49_shell_split_quoted : forall q body, (q = 34 \/ q = 39)%N -> body <> 
   shell_split (q :: body ++ [q]) = SOk [body].
 Proof. exact shell_split_quoted. Qed.
 
+(* pflag Set on an existing value: success => the value is ParseDuration / the count of that string alone
+   (independent of what the variable held); failure => the variable is unchanged *)
+Theorem C49_duration_set_spec : forall cur s,
+  (forall d, parse_duration s = DOk d -> dur_set cur s = (true, d))
+  /\ ((forall d, parse_duration s <> DOk d) -> dur_set cur s = (false, cur)).
+Proof. exact dur_set_spec. Qed.
+
+Theorem C49_duration_set_independent : forall cur1 cur2 s, fst (dur_set cur1 s) = true -> dur_set cur1 s = dur_set cur2 s.
+Proof. exact dur_set_independent. Qed.
+
+Theorem C49_count_set_spec : forall cur s,
+  (forall v, policy_count_set s = COk v -> count_set cur s = (true, v))
+  /\ ((forall v, policy_count_set s <> COk v) -> count_set cur s = (false, cur)).
+Proof. exact count_set_spec. Qed.
+
 Print Assumptions C49_no_parser_panics.
 Print Assumptions C49_parse_duration_total.
 Print Assumptions C49_parse_duration_exact.
@@ -142,3 +157,6 @@ Print Assumptions C49_shell_split_open_quote.
 Print Assumptions C49_shell_split_plain.
 Print Assumptions C49_fields_spec.
 Print Assumptions C49_shell_split_quoted.
+Print Assumptions C49_duration_set_spec.
+Print Assumptions C49_duration_set_independent.
+Print Assumptions C49_count_set_spec.
